@@ -571,6 +571,15 @@ func genHistory(c *Ctx, u *c09Universe, maxLen int) Case {
 				ops = append(ops, fmt.Sprintf("LM,%s,-", hx([][]byte{tSHA256, tX509}[c.Rng.Intn(2)])))
 			} else if r < 2 {
 				ops = append(ops, fmt.Sprintf("LM,%s,%s", hx(tX509), hx(u.owners[0])+":"+hx(u.data[4])+"+"+hx(u.owners[1])+":"+hx(u.data[7])))
+			} else if r == 2 {
+				// ... with one certificate in several of its textual forms (DER, PEM, PEM behind text) and others:
+				// the list-level AppendBytes has to recognise the duplicate whatever form it arrives in
+				forms := [][]byte{u.data[4], u.data[5], u.data[10], u.data[7], u.data[8], u.data[6]}
+				var es []string
+				for k := 2 + c.Rng.Intn(3); k > 0; k-- {
+					es = append(es, hx(u.owners[c.Rng.Intn(2)])+":"+hx(forms[c.Rng.Intn(len(forms))]))
+				}
+				ops = append(ops, fmt.Sprintf("LM,%s,%s", hx(tX509), strings.Join(es, "+")))
 			} else {
 				ops = append(ops, "E")
 			}
